@@ -341,6 +341,8 @@ void run_exec(const Execution &ex) {
     } else {
         ctl.mode = vs::BaseController::RANDOM;
         ctl.rng = vs::Rng((uint64_t) ex.cfg.num("seed", 1));
+        if (rd_access_yield) rd_access_yield((int) ex.cfg.num("accy", 0), (unsigned) ex.cfg.num("seed", 1));
+        if (ex.cfg.num("accy", 0)) ctl.max_steps *= 20;
         ctl.spurious_per_1000 = (int) ex.cfg.num("spurious", 0);
         // a timed wait (none in the code as it stands) may time out at any moment: the holder may be arbitrarily slow
         ctl.timeout_per_1000 = (int) ex.cfg.num("timeouts", 40);
